@@ -44,6 +44,11 @@ pub enum Part {
     /// a select that lists a timeout or an awaited helper BEFORE a filtered receive, with heap
     /// binaries in the mailbox (racy: invariants only), then drains the mailbox
     PrioFilter { sizes: Vec<u8>, helper_work: u16, timeout: u8, want: u8, await_first: bool },
+    /// a select over several processes of which exactly one is known to have finished (it was
+    /// awaited before): the others are still working (listed after it) or blocked until a
+    /// message main sends after the select (listed anywhere) — so the select's value is fixed.
+    /// others: (gated, listed before the finished one if gated, work)
+    SelectKnownFirst { first_work: u16, others: Vec<(bool, bool, u16)> },
 }
 
 impl Part {
@@ -73,7 +78,8 @@ pub fn part() -> impl Strategy<Value = Part> {
         2 => prop::collection::vec(-9i8..9, 1..4).prop_map(|inputs| Part::ReqReply { inputs }),
         2 => (1u8..5, work.clone()).prop_map(|(depth, base)| Part::AwaitChain { depth, base }),
         2 => (work.clone(), any::<bool>()).prop_map(|(work, twice)| Part::LateAwait { work, twice }),
-        3 => (work, 2u8..6, any::<bool>()).prop_map(|(work, awaiters, gated)| Part::SharedAwait { work, awaiters, gated }),
+        3 => (work.clone(), 2u8..6, any::<bool>()).prop_map(|(work, awaiters, gated)| Part::SharedAwait { work, awaiters, gated }),
+        3 => (prop_oneof![0u16..5, 0u16..100], prop::collection::vec((any::<bool>(), any::<bool>(), work), 2..5)).prop_map(|(first_work, others)| Part::SelectKnownFirst { first_work, others }),
         3 => (prop_oneof![0u16..5, 0u16..300], prop::collection::vec(-5i8..50, 1..5)).prop_map(|(helper_work, inputs)| Part::BusyReceiver { helper_work, inputs }),
         2 => (prop::collection::vec(0u8..40, 1..4), any::<bool>()).prop_map(|(sizes, concat_in_main)| Part::BinFork { sizes, concat_in_main }),
         2 => prop::collection::vec(0u8..20, 1..4).prop_map(|chunks| Part::BinStream { chunks }),
@@ -239,6 +245,38 @@ pub fn render(g: &GProg) -> Rendered {
                 }
                 let mut fields: Vec<String> = (0..*awaiters).map(|i| format!("!{}_{i}", v("sa"))).collect();
                 fields.push(format!("!{}", v("sa")));
+                lines.push(format!("{} = [{}]", v("r"), fields.join(", ")));
+                results.push(v("r"));
+            }
+            Part::SelectKnownFirst { first_work, others } => {
+                lines.push(format!("{} = {first_work} @w", v("sk")));
+                processes += 1;
+                lines.push(format!("{} = !{}", v("skx"), v("sk")));
+                let mut before: Vec<String> = Vec::new();
+                let mut after: Vec<String> = Vec::new();
+                for (i, (gated, first, work)) in others.iter().enumerate() {
+                    let name = format!("{}_{i}", v("sk"));
+                    if *gated {
+                        has_messages = true;
+                        lines.push(format!("{name} = @{{ !#'int =x, {work} w =y, [x, y] __integer_add__ }}"));
+                        if *first { before.push(name) } else { after.push(name) }
+                    } else {
+                        lines.push(format!("{name} = {work} @w"));
+                        after.push(name);
+                    }
+                    processes += 1;
+                }
+                let mut list = before;
+                list.push(v("sk"));
+                list.extend(after);
+                lines.push(format!("{} = ! [{}]", v("sks"), list.join(", ")));
+                for (i, (gated, _, _)) in others.iter().enumerate() {
+                    if *gated {
+                        lines.push(format!("{} {}_{i}", 3 + i, v("sk")));
+                    }
+                }
+                let mut fields = vec![v("skx"), v("sks")];
+                fields.extend((0..others.len()).map(|i| format!("!{}_{i}", v("sk"))));
                 lines.push(format!("{} = [{}]", v("r"), fields.join(", ")));
                 results.push(v("r"));
             }
